@@ -12,6 +12,7 @@ import (
 	"fmt"
 	"go/constant"
 	"go/token"
+	"go/types"
 	"sort"
 	"strings"
 
@@ -96,6 +97,27 @@ func (e *Explorer) Reach(start *ssa.BasicBlock, target func(ssa.Instruction) boo
 			}
 		}
 	}
+	// a field of a struct value is named after the struct value (go/ssa does
+	// no CSE: every `offered.noAuth` is its own instruction); its facts live
+	// as long as the struct value's
+	for _, b := range e.Fn.Blocks {
+		for _, in := range b.Instrs {
+			if fl, ok := in.(*ssa.Field); ok {
+				if db, ok := defBlock[fl.X.Name()]; ok {
+					defBlock[factName(fl)] = db
+				}
+			}
+			if st, ok := in.(*ssa.Store); ok {
+				if al, ok := st.Addr.(*ssa.Alloc); ok && writeOnceLocal(al) {
+					if stt, ok := al.Type().(*types.Pointer).Elem().Underlying().(*types.Struct); ok {
+						for i := 0; i < stt.NumFields(); i++ {
+							defBlock[al.Name()+fmt.Sprintf(".f%d", i)] = b
+						}
+					}
+				}
+			}
+		}
+	}
 	seen := map[string]bool{}
 	work := []exState{{start, map[string]bool{}}}
 	for len(work) > 0 {
@@ -173,7 +195,7 @@ func (e *Explorer) Reach(start *ssa.BasicBlock, target func(ssa.Instruction) boo
 					if neg {
 						truth = !truth
 					}
-					name := v.Name()
+					name := factName(v)
 					if old, has := facts[name]; has {
 						if old != truth {
 							continue // infeasible
@@ -246,7 +268,7 @@ func (e *Explorer) phiFacts(pred, succ *ssa.BasicBlock, facts map[string]bool) m
 				}
 			}
 		}
-		if v, has := facts[ev.Name()]; has {
+		if v, has := facts[factName(ev)]; has {
 			set(phi.Name(), v != neg, false)
 		} else if _, had := facts[phi.Name()]; had {
 			set(phi.Name(), false, true)
@@ -256,4 +278,54 @@ func (e *Explorer) phiFacts(pred, succ *ssa.BasicBlock, facts map[string]bool) m
 		return facts
 	}
 	return out
+}
+
+// factName: the name under which a fact about a boolean value is kept. Pure
+// projections of one SSA value (x.f of a struct value x) share a name however
+// often the source spells them.
+func factName(v ssa.Value) string {
+	if fl, ok := v.(*ssa.Field); ok {
+		return factName(fl.X) + fmt.Sprintf(".f%d", fl.Field)
+	}
+	// a field read of a local struct variable that is assigned exactly once,
+	// as a whole, and whose address goes nowhere else (`offered := scan(..)`
+	// followed by reads of offered.noAuth)
+	if ld, ok := v.(*ssa.UnOp); ok && ld.Op == token.MUL {
+		if fa, ok := ld.X.(*ssa.FieldAddr); ok {
+			if al, ok := fa.X.(*ssa.Alloc); ok && writeOnceLocal(al) {
+				return al.Name() + fmt.Sprintf(".f%d", fa.Field)
+			}
+		}
+	}
+	return v.Name()
+}
+
+func writeOnceLocal(al *ssa.Alloc) bool {
+	if al.Heap || al.Referrers() == nil {
+		return false
+	}
+	stores := 0
+	for _, r := range *al.Referrers() {
+		switch x := r.(type) {
+		case *ssa.Store:
+			if x.Addr != ssa.Value(al) {
+				return false // the address itself is stored somewhere
+			}
+			stores++
+		case *ssa.FieldAddr:
+			for _, u := range *x.Referrers() {
+				if ld, ok := u.(*ssa.UnOp); !ok || ld.Op != token.MUL {
+					return false
+				}
+			}
+		case *ssa.UnOp:
+			if x.Op != token.MUL {
+				return false
+			}
+		case *ssa.DebugRef:
+		default:
+			return false
+		}
+	}
+	return stores == 1
 }
